@@ -211,8 +211,9 @@ def build_arg(t, depth, d):
         f = Fiber(coords, [s for _, s in t]) if coords else Fiber([], [])
         f._setDefault(d)
     else:
+        # interior argument fibers keep whatever default an unowned fiber guesses (a scalar 0 when
+        # empty): since the fix of S31 an owned destination no longer copies that guess into its rank
         f = Fiber(coords, [build_arg(s, depth - 1, d) for _, s in t]) if coords else Fiber([], [])
-        f._setDefault(Fiber)
     return f
 
 
